@@ -1,6 +1,6 @@
 (* C03 - No controller code runs unless the route's effective security approved it. *)
 From Gleece Require Import Base.Bytes Model.Project Model.Spec Model.Security Model.RouterGate
-     Proofs.SecurityProofs Proofs.RouterGateProofs Proofs.SpecProofs.
+     Proofs.SecurityProofs Proofs.RouterGateProofs Proofs.SpecProofs Model.Bind Model.Handler Proofs.HandlerProofs.
 From Coq Require Import String.
 
 (* the three-level rule: the method's own @Security list if it has one, otherwise the
@@ -63,18 +63,49 @@ Theorem C03_translated_router_sound : forall (p : project) (regs : list registra
 Proof. exact router_ok_gate. Qed.
 
 Example C03_nonvacuous :
-  run_handler demo_cb demo_handler 0 =
+  run_handler demo_cb demo_handler 0%nat =
   [EAuth (mkCheck (s "a") [s "r"]) (Some (mkRefusal 401%N (s "no")));
    EAuth (mkCheck (s "b") []) None;
    EAuth (mkCheck (s "c") []) (Some (mkRefusal 401%N (s "no")));
    EAuth (mkCheck (s "d") []) (Some (mkRefusal 401%N (s "no")));
    EReplied 401%N (s "no")]%string /\
-  prop_C03 demo_alts (run_handler demo_cb demo_handler 0) = true /\
-  prop_C03 demo_alts (run_handler demo_cb demo_handler 1) = true /\
+  prop_C03 demo_alts (run_handler demo_cb demo_handler 0%nat) = true /\
+  prop_C03 demo_alts (run_handler demo_cb demo_handler 1%nat) = true /\
   prop_C03 demo_alts [EAuth (mkCheck (s "a") [s "r"]) (Some (mkRefusal 401%N (s "no"))); EInit;
                       EInvoked (s "C") (s "M")]%string = false /\
   prop_C03 demo_alts [EParsed (s "id"); EAuth (mkCheck (s "a") [s "r"]) None; EInit]%string = false.
 Proof. exact demo_gate. Qed.
+
+
+(* ---- whole requests: the engine-independent handler model (Model/Handler.v), compared with each of
+   the five compiled routers on every request of this check (pygen/handlermodel.py) ---- *)
+
+(* the method is invoked only behind an alternative approved in full (or when none is required) *)
+Theorem C03_handler_invoked_approved : forall cfg c m tbl sc rq tr cn mn args st,
+  handle cfg c m tbl sc rq = (tr, Invoked cn mn args st) ->
+  gate_alts cfg c m = [] \/
+  exists l, In l (gate_alts cfg c m) /\ forall ck, In ck l -> approved_in tr ck = true.
+Proof. exact handle_invoked_approved. Qed.
+
+(* a refused request: every alternative had a refused check, the reply carries the status of the LAST
+   refusal, nothing was invoked and no parameter was looked at *)
+Theorem C03_handler_refused : forall cfg c m tbl sc rq tr r,
+  handle cfg c m tbl sc rq = (tr, Refused r) ->
+  gate_alts cfg c m <> [] /\
+  (forall l, In l (gate_alts cfg c m) -> exists ck, In ck l /\ refused_in tr ck = true) /\
+  last_refusal tr = Some r /\
+  predicted (handle cfg c m tbl sc rq) = Some (mkObs (rf_status r) (auth_records tr) []).
+Proof. exact handle_refused. Qed.
+
+(* the callback is never consulted behind the gate *)
+Theorem C03_handler_trace_only_auth : forall cfg c m tbl sc rq e,
+  In e (fst (handle cfg c m tbl sc rq)) -> is_auth e = true.
+Proof. exact handle_trace_only_auth. Qed.
+
+Example C03_handler_nonvacuous :
+  snd (handle demo_cfg demo_ctrl demo_method [(KAll, mkRefusal 403 (s "no"))] (mkOp false None) (demo_rq "5" "7"))
+  = Refused (mkRefusal 403 (s "no")).
+Proof. exact demo_refused. Qed.
 
 Print Assumptions C03_effective_rule.
 Print Assumptions C03_effective_empty_iff.
@@ -85,3 +116,7 @@ Print Assumptions C03_refused_means_untouched.
 Print Assumptions C03_invoked_means_approved.
 Print Assumptions C03_translated_router_sound.
 Print Assumptions C03_nonvacuous.
+Print Assumptions C03_handler_invoked_approved.
+Print Assumptions C03_handler_refused.
+Print Assumptions C03_handler_trace_only_auth.
+Print Assumptions C03_handler_nonvacuous.
